@@ -770,6 +770,26 @@ enum ReprE {
     Z { s: String } = 9,
 }
 
+/// enums whose discriminants are only PARTLY written out: an implicit discriminant continues from the
+/// previous explicit one, so a declared value can equal another variant's position
+#[derive(Clone, Debug, StableHash)]
+#[stable_hash_crate(qbice_stable_hash)]
+enum PrioE {
+    Low = 1,
+    Normal,
+    High,
+    Top = 0,
+}
+#[derive(Clone, Debug, StableHash)]
+#[stable_hash_crate(qbice_stable_hash)]
+#[repr(u8)]
+enum OpE {
+    Push(u16) = 1,
+    Pop(u16),
+    Nop,
+    Jmp { to: u16 } = 0,
+}
+
 fn rnd_string(r: &mut StdRng) -> String {
     let n = r.gen_range(1..24);
     (0..n).map(|_| r.gen_range(b' '..=b'~') as char).collect()
@@ -1073,6 +1093,12 @@ fn leaf(ty: &str, cls: &str, seed: u64, o: &mut Out) {
                     _ => format!("Z{a:?}"),
                 });
                 o.sized("#ReprE", &abs, v);
+            }
+            for v in [PrioE::Low, PrioE::Normal, PrioE::High, PrioE::Top] {
+                o.sized("#PrioE", &Some(format!("{v:?}")), &v);
+            }
+            for v in [OpE::Push(c), OpE::Pop(c), OpE::Nop, OpE::Jmp { to: c }] {
+                o.sized("#OpE", &Some(format!("{v:?}")), &v);
             }
         }
         _ => panic!("unknown leaf type {ty}"),
